@@ -22,4 +22,57 @@ __CPROVER_ensures (gk == n - 1 ==> g_co == __CPROVER_return_value)
 __CPROVER_ensures (__CPROVER_return_value <= 1)
 ;
 
+
+mp_limb_t __gmpn_sub_n (mp_ptr rp, mp_srcptr up, mp_srcptr vp, mp_size_t n)
+__CPROVER_requires (1 <= n && n <= V_NMAX && 0 <= gk && gk < n)
+__CPROVER_requires (V_W_OK (rp, n) && V_R_OK (up, n) && V_R_OK (vp, n))
+__CPROVER_requires (V_SAME_OR_SEPARATE (rp, up, n) && V_SAME_OR_SEPARATE (rp, vp, n))
+__CPROVER_assigns (__CPROVER_object_upto (rp, n * 8), g_ci, g_co)
+__CPROVER_ensures (g_ci <= 1 && g_co <= 1)
+__CPROVER_ensures (V_SUBREL (rp[gk], __CPROVER_old (up[gk]), __CPROVER_old (vp[gk]), g_ci, g_co))
+__CPROVER_ensures (gk == 0 ==> g_ci == 0)
+__CPROVER_ensures (gk == n - 1 ==> g_co == __CPROVER_return_value)
+__CPROVER_ensures (__CPROVER_return_value <= 1)
+;
+
+/* copies: rp[gk] == old sp[gk]; copyi allows rp <= sp overlap, copyd rp >= sp; n == 0 allowed */
+void __gmpn_copyi (mp_ptr rp, mp_srcptr sp, mp_size_t n)
+__CPROVER_requires (1 <= n && n <= V_NMAX && 0 <= gk && gk < n)
+__CPROVER_requires (V_W_OK (rp, n) && V_R_OK (sp, n) && V_SAME_OR_INCR (rp, sp, n))
+__CPROVER_assigns (__CPROVER_object_upto (rp, n * 8))
+__CPROVER_ensures (rp[gk] == __CPROVER_old (sp[gk]))
+;
+void __gmpn_copyd (mp_ptr rp, mp_srcptr sp, mp_size_t n)
+__CPROVER_requires (1 <= n && n <= V_NMAX && 0 <= gk && gk < n)
+__CPROVER_requires (V_W_OK (rp, n) && V_R_OK (sp, n) && V_SAME_OR_DECR (rp, sp, n))
+__CPROVER_assigns (__CPROVER_object_upto (rp, n * 8))
+__CPROVER_ensures (rp[gk] == __CPROVER_old (sp[gk]))
+;
+void __gmpn_zero (mp_ptr rp, mp_size_t n)
+__CPROVER_requires (1 <= n && n <= V_NMAX && V_W_OK (rp, n) && 0 <= gk && gk < n)
+__CPROVER_assigns (__CPROVER_object_upto (rp, n * 8))
+__CPROVER_ensures (rp[gk] == 0)
+;
+void __gmpn_com_n (mp_ptr rp, mp_srcptr up, mp_size_t n)
+__CPROVER_requires (1 <= n && n <= V_NMAX && V_W_OK (rp, n) && V_R_OK (up, n) && V_SAME_OR_SEPARATE (rp, up, n) && 0 <= gk && gk < n)
+__CPROVER_assigns (__CPROVER_object_upto (rp, n * 8))
+__CPROVER_ensures (rp[gk] == ~__CPROVER_old (up[gk]))
+;
+
+/* shifts, 1 <= cnt <= 63.  lshift: overlap allowed when rp >= up; rshift: when rp <= up. */
+mp_limb_t __gmpn_lshift (mp_ptr rp, mp_srcptr up, mp_size_t n, unsigned int cnt)
+__CPROVER_requires (1 <= n && n <= V_NMAX && 1 <= cnt && cnt <= 63 && 0 <= gk && gk < n)
+__CPROVER_requires (V_W_OK (rp, n) && V_R_OK (up, n) && V_SAME_OR_DECR (rp, up, n))
+__CPROVER_assigns (__CPROVER_object_upto (rp, n * 8))
+__CPROVER_ensures (rp[gk] == ((__CPROVER_old (up[gk]) << cnt) | (gk > 0 ? __CPROVER_old (up[gk - (gk > 0)]) >> (64 - cnt) : 0)))
+__CPROVER_ensures (__CPROVER_return_value == __CPROVER_old (up[n - 1]) >> (64 - cnt))
+;
+mp_limb_t __gmpn_rshift (mp_ptr rp, mp_srcptr up, mp_size_t n, unsigned int cnt)
+__CPROVER_requires (1 <= n && n <= V_NMAX && 1 <= cnt && cnt <= 63 && 0 <= gk && gk < n)
+__CPROVER_requires (V_W_OK (rp, n) && V_R_OK (up, n) && V_SAME_OR_INCR (rp, up, n))
+__CPROVER_assigns (__CPROVER_object_upto (rp, n * 8))
+__CPROVER_ensures (rp[gk] == ((__CPROVER_old (up[gk]) >> cnt) | (gk < n - 1 ? __CPROVER_old (up[gk + (gk < n - 1)]) << (64 - cnt) : 0)))
+__CPROVER_ensures (__CPROVER_return_value == __CPROVER_old (up[0]) << (64 - cnt))
+;
+
 #endif
